@@ -41,6 +41,22 @@ def gen(repo):
     for n in ("TIGHT_MIN_TO_COMPRESS", "MIN_SPLIT_RECT_SIZE", "MIN_SOLID_SUBRECT_SIZE",
               "MAX_SPLIT_TILE_SIZE", "TIGHT_MAX_RECT_SIZE", "TIGHT_MAX_RECT_WIDTH"):
         out.append("def %s : Nat := %d" % (n, _intmacro(d, n)))
+    # the emitter's guard must be the exact complement of the counter's "unknown" condition:
+    # rfbNumCodedRectsTight returns 0 iff (enableLastRectEncoding && w*h >= MIN_SPLIT_RECT_SIZE)   [T1 proves this side]
+    # SendRectEncodingTight goes straight to SendRectSimple iff (!enableLastRectEncoding || w*h < MIN_SPLIT_RECT_SIZE)
+    tight = open(os.path.join(repo, "src/libvncserver/tight.c")).read()
+    pat = (r"if \(!cl->enableLastRectEncoding \|\| w \* h < MIN_SPLIT_RECT_SIZE\)\s*"
+           r"return SendRectSimple\(cl, x, y, w, h\);")
+    if len(re.findall(pat, tight)) != 1:
+        raise RuntimeError("SendRectEncodingTight: the guard in front of the solid-area search changed")
+    # ... and nothing but SendRectEncodingTight itself (recursion inside the search) and the two entry
+    # points call SendRectEncodingTight
+    ncalls = len(re.findall(r"\bSendRectEncodingTight\(cl,", tight))
+    if ncalls != 5:
+        raise RuntimeError("SendRectEncodingTight call sites changed (%d)" % ncalls)
+    out.append("/-- checked on the C text by tools/consts/c03.py: SendRectEncodingTight searches for solid areas\n"
+               "exactly when `!(!enableLastRectEncoding || w*h < MIN_SPLIT_RECT_SIZE)` -/")
+    out.append("def tightSearchGuardChecked : Bool := true")
     srv = open(os.path.join(repo, "src/libvncserver/rfbserver.c")).read()
     out.append("def correMaxWidth : Nat := %d" % _one(srv, r"cl->correMaxWidth\s*=\s*(\d+)\s*;", "correMaxWidth"))
     out.append("def correMaxHeight : Nat := %d" % _one(srv, r"cl->correMaxHeight\s*=\s*(\d+)\s*;", "correMaxHeight"))
